@@ -11,7 +11,8 @@
 //	  duplicate / re-spelt key, swap of any two children, cross-level swap),
 //	  every truncation prefix;
 //	ordered PAIRS of mutations (first: full list, second: reduced list) on the
-//	  120 smallest seeds (thorough: 260 smallest — see `pair_seeds`);
+//	  120 smallest seeds (thorough: 320 smallest of ~500 — see `pair_seeds`;
+//	  byte-identical repeats within a seed are evaluated once);
 //	concatenations of two seeds with separators "", "\n", "," (quick: 60
 //	  smallest seeds; thorough: all);
 //	the fixed list codec.Lexical (BOM, lone surrogates, 1e400, nesting 10^4,
@@ -299,7 +300,7 @@ func main() {
 	sd := seeds()
 	pairSeeds, catSeeds := 120, 60
 	if r.Thorough() {
-		pairSeeds, catSeeds = 260, len(sd)
+		pairSeeds, catSeeds = 320, len(sd)
 	}
 	if *pairFlag > 0 {
 		pairSeeds = *pairFlag
